@@ -123,22 +123,10 @@ def run_property(pid, tier, seed, jobs=None, write_baseline=False, only_units=No
             print(f"  unit {r['unit']}: {len(r['obligations'])} obligations, {r['paths']} paths, "
                   f"{r['seconds']:.1f}s{'  CRASHED' if r['crashed'] else ''}", flush=True)
     # one pool over all units of all modules
-    from concurrent.futures import ProcessPoolExecutor, as_completed
-    from .unit import _run_unit
+    from .unit import run_pool
     jobs = jobs or min(16, os.cpu_count() or 4)
     order = sorted(units, key=lambda mn: -registry.unit_cost(mn[0], mn[1]))
-    with ProcessPoolExecutor(max_workers=jobs) as pool:
-        futs = {pool.submit(_run_unit, m, n, tier, seed): (m, n) for m, n in order}
-        for f in as_completed(futs):
-            m, n = futs[f]
-            try:
-                r = f.result()
-            except Exception as e:  # worker died
-                r = dict(unit=n, obligations=[], paths=0, infeasible=0, unsupported=[], notes=[], assumptions=[],
-                         trusted=[], bounded=[], seconds=0.0, crashed=f"worker failed: {e!r}", functions={},
-                         kind="", extra={}, concrete=[])
-            results[(m, n)] = r
-            progress(r)
+    results = run_pool([((m, n), m, n, tier, seed) for m, n in order], jobs, progress)
 
     # ---- guards -------------------------------------------------------------------------
     crashed = [(k, r["crashed"]) for k, r in results.items() if r["crashed"]]
